@@ -18,6 +18,11 @@ CHECKS = {
    technique="TLA+ spec ArchiveFile (reader, writer+repair, crash images) checked by TLC; every byte-level crash image of real archives observed in forked children and validated by TLC against Trace_ArchiveFile",
    text="TLC explores every crash point (each cell boundary, inside each cell, the in-place trailer patch with partially written offset) of every save, up to 2-3 crash/restart cycles, and checks that exposed snapshots are the uninterrupted run's, an error is reported iff nothing is exposed, completed snapshots are never lost, the writer never refuses to continue, and a restarted run converges. Binding at byte granularity: for reference archives of 2 (quick) / 8 (thorough) integrators the C driver builds the image for byte counts of every write (thorough: every byte), and in a forked child opens it, reloads all exposed snapshots, restarts from the last one and runs to the end; each image is projected to cells and TLC evaluates the specification's reader and writer on it: 7 clauses (no signal, reader result = spec reader, exactly the completed snapshots, error iff none, exposed identical, file after restart = spec writer's prediction, convergence). The same images are opened through rebound.Simulationarchive / Simulation(file) in forked interpreters.",
    note="Assumes prefix persistence (one buffered stream, increasing offsets); snapshot identity by 64-bit digest of t/N/steps/dt/particles; restarts are deterministic re-runs; power-loss reordering is out of scope."),
+ "C17": dict(
+   category="model_checking", design_ref="DESIGN.md 4/C17",
+   technique="TLA+ spec Stream (term algebra of copy/restore/step/edit/compare) checked by TLC; TLC-generated behaviours executed on real simulations and validated against Trace_Stream; exhaustive single-field perturbation audit of the descriptor table against the header's offsetof",
+   text="TLC checks the Stream model (copy and every restore route reproduce the term, operations on one object never change another, expected comparison result) exhaustively for 2 objects and generates 120 (quick) / 1500 (thorough) behaviours of depth 10 over Step/Edit/Reproduce(copy|pickle|file|archive)/Compare on 3 objects; each is executed on real simulations starting from one of 23 reachable states (every integrator mid-run incl. unsynchronised ones, variational 1st/2nd order, MEGNO, tree+collisions, merged collision, test particles, rejected BS step, display settings) and TLC validates the logged digests and comparison answers (C diff and Python ==) against Trace_Stream: equal terms => bit-identical persisted content and 'equal'; untouched object keeps its bits; an edit of a non-walltime field => 'different'. Exhaustive audit: every scalar entry of reb_binary_field_descriptor_list (read from the built library) is perturbed on a copy through the offset computed from src/rebound.h by generated offsetof programs; required: descriptor offset = header offset, comparison reports it iff it is not a walltime field, exactly that stream field changes, and the value survives save/load.",
+   note="Callbacks are re-attached by the harness after copy/restore (function pointers are documented as not persisted); save_messages (forced to 1 by the Python constructor) and array-count fields are excluded from the bit-flip audit; digest = SHA-256 with pointer members masked."),
 }
 
 NOT_YET = {
